@@ -241,6 +241,30 @@ func c03Gen(c *core.Ctx) func(yield func(c03Case) bool) {
 		if !ok {
 			return
 		}
+		// a processor that answers nil from before-initialization for one node (the container then
+		// skips that node's init methods and after-initialization callbacks and keeps the component),
+		// the same or another node substituted at any timing
+		allGraphs(3, three, false, func(e [][]int) bool {
+			for veto := 0; veto < 3; veto++ {
+				for node := 0; node < 3; node++ {
+					for plan := 1; plan < scen.NumWrapPlans; plan++ {
+						w := []int{0, 0, 0}
+						w[node] = plan
+						v := []bool{false, false, false}
+						v[veto] = true
+						for _, base := range [][]int{{0, 1, 2}, {2, 1, 0}} {
+							if ok = yield(c03Case{scen.GraphProg{N: 3, Edges: e, Wrap: w, Veto: v, Base: base, Family: "n3-veto"}, 0}); !ok {
+								return false
+							}
+						}
+					}
+				}
+			}
+			return true
+		})
+		if !ok {
+			return
+		}
 		// func-shaped substitutes (closures implementing the interface): two closures of one literal
 		// are two versions although they share a code pointer
 		allGraphs(3, three, false, func(e [][]int) bool {
@@ -342,7 +366,7 @@ func c03Run(c *core.Ctx) {
 			cc := cs
 			cc.Choices = ch.Choices()
 			key := func(kind string) string {
-				return "C03/" + kind + "/" + core.Hash(p.N, p.Edges, p.Base, p.Wrap, p.Lazy, p.InitLookup, p.WrapFunc, p.WrapSame, cc.Choices)
+				return "C03/" + kind + "/" + core.Hash(p.N, p.Edges, p.Base, p.Wrap, p.Lazy, p.InitLookup, p.WrapFunc, p.WrapSame, p.Veto, cc.Choices)
 			}
 			if !o.OK() {
 				return // failing is always allowed by C03 (panics / hangs are C09 / C02 matters)
